@@ -272,7 +272,8 @@ def tick():
     thread bootstraps) that join self-deadlocks - observed once in a thorough run, see DESIGN.md section 4."""
     import gc
     _TICKS[0] += 1
-    gc.collect(1 if _TICKS[0] % 40 else 2)
+    if _TICKS[0] % 8 == 0:
+        gc.collect(1 if _TICKS[0] % 800 else 2)
 
 
 def fresh_dir(name):
